@@ -450,6 +450,8 @@ def coq_pop(op):
         return "PFillContig %s %s" % (coq_rect(op[1]), zl(op[2]))
     if k == "fcg":
         return "PFillContigGen %s %d" % (coq_rect(op[1]), op[2])
+    if k == "fcm":
+        return "PFillContig %s (mod_colors %d %d)" % (coq_rect(op[1]), op[3], op[2])
     if k == "fs":
         return "PFillSolid %s %d" % (coq_rect(op[1]), op[2])
     if k == "cl":
@@ -481,6 +483,8 @@ def rust_pop(op):
         return "fc %d %d %d %d %d %s" % (op[1][0], op[1][1], op[1][2], op[1][3], len(op[2]), " ".join(map(str, op[2])))
     if k == "fcg":
         return "fcg %d %d %d %d %d" % (op[1][0], op[1][1], op[1][2], op[1][3], op[2])
+    if k == "fcm":
+        return "fcm %d %d %d %d %d %d" % (op[1][0], op[1][1], op[1][2], op[1][3], op[2], op[3])
     if k == "fs":
         return "fs %d %d %d %d %d" % (op[1][0], op[1][1], op[1][2], op[1][3], op[2])
     if k in ("cl", "vo", "te"):
